@@ -161,6 +161,10 @@ Lemma prefix_safe_ignore_cons c p s E P :
   Safe s E P -> prefix_safe p (exec_or c s) E P -> prefix_safe ((c, Ignore) :: p) s E P.
 Proof. intros H0 Hn [|k]; [exact H0|]. rewrite prefix_state_ignore_cons. apply Hn. Qed.
 
+Lemma prefix_state_retire_cons c p k s :
+  prefix_state ((c, Retire) :: p) (S k) s = prefix_state p k (exec_or c s).
+Proof. unfold prefix_state, exec_or. cbn [firstn run_prog]. now destruct (exec c s). Qed.
+
 Lemma run_must_cons c p s :
   run ((c, Must) :: p) s = match exec c s with Some s' => run p s' | None => (s, Some EIo) end.
 Proof. unfold run. cbn [run_prog]. now destruct (exec c s). Qed.
@@ -230,6 +234,17 @@ Proof.
   intros H0 [Hn1 Hn2]. split.
   - now apply prefix_safe_ignore_cons.
   - intros s'. rewrite run_ignore_cons. apply Hn2.
+Qed.
+
+Lemma run_retire_cons c p s : run ((c, Retire) :: p) s = run p (exec_or c s).
+Proof. unfold run, exec_or. cbn [run_prog]. now destruct (exec c s). Qed.
+
+Lemma walk_retire_cons c p s E P (Q : fs -> Prop) :
+  Safe s E P -> walk p (exec_or c s) E P Q -> walk ((c, Retire) :: p) s E P Q.
+Proof.
+  intros H0 [Hn1 Hn2]. split.
+  - intros [|k]; [exact H0|]. rewrite prefix_state_retire_cons. apply Hn1.
+  - intros s'. rewrite run_retire_cons. apply Hn2.
 Qed.
 
 Lemma walk_conseq p s E P (Q Q' : fs -> Prop) : (forall s', Q s' -> Q' s') -> walk p s E P Q -> walk p s E P Q'.
@@ -340,8 +355,8 @@ Lemma walk_any_cons c m p s E P (Q : fs -> Prop) :
   walk ((c, m) :: p) s E P Q.
 Proof.
   intros H0 (s1 & E1) Hn. destruct (Hn s1 E1) as [A B]. split.
-  - intros [|k]; [exact H0|]. unfold prefix_state. cbn [firstn run_prog]. rewrite E1. apply A.
-  - intros s'. unfold run. cbn [run_prog]. rewrite E1. apply B.
+  - intros [|k]; [exact H0|]. unfold prefix_state. cbn [firstn run_prog]. destruct m; rewrite E1; apply A.
+  - intros s'. unfold run. cbn [run_prog]. destruct m; rewrite E1; apply B.
 Qed.
 
 Definition no_defer (p : prog) : Prop := Forall (fun cm => match snd cm with Defer _ => False | _ => True end) p.
@@ -354,8 +369,8 @@ Lemma run_nodefer_app p1 : forall p2 s, no_defer p1 ->
 Proof.
   induction p1 as [|[c m] p1 IH]; intros p2 s Hnd; [reflexivity|].
   inversion Hnd as [|? ? Hm Hnd']; subst. cbn [app]. unfold run in *. cbn [run_prog].
-  destruct (exec c s) as [s1|]; [now apply IH|].
-  destruct m; cbn [snd] in Hm; [reflexivity|now apply IH|now apply IH|destruct Hm].
+  destruct m; cbn [snd] in Hm; try (destruct Hm); (destruct (exec c s) as [s1|]; [now apply IH|]);
+    [reflexivity|now apply IH|now apply IH|now apply IH].
 Qed.
 
 Lemma walk_app_nodefer p1 p2 s E P (Q : fs -> Prop) : no_defer p1 ->
